@@ -117,3 +117,12 @@ Definition run_lu (n : nat) (A : list Z) : list Z * list Z :=
 Definition run_lu_inverse (n : nat) (A : list Z) : list Z := list_of n n (lu_inverse (S:=ZS) n (mat_of n A)).
 Definition run_lu_solve (n c : nat) (A B : list Z) : list Z :=
   list_of n c (fun i j => lu_solve (S:=ZS) n (mat_of n A) (fun r => nth (r * c + j) B 0%Z) i).
+
+(* ---- C10-C13: the static pre-pivot and the row / column permutation helpers (unary_piv_op.h) over Z *)
+From FastorV Require Import Model.Pivot.
+Definition zabs_gt (a b : Z) : bool := (Z.abs b <? Z.abs a)%Z.
+Definition permf (P : list nat) : nat -> nat := fun i => nth i P 0.
+Definition run_pivot (n : nat) (A : list Z) : list nat := map (pivot_perm zabs_gt (mat_of n A) n) (seq 0 n).
+Definition run_apply_pivot (n : nat) (A : list Z) (P : list nat) : list Z := list_of n n (apply_pivot n (mat_of n A) (permf P)).
+Definition run_reconstruct (n : nat) (A : list Z) (P : list nat) : list Z := list_of n n (reconstruct n (mat_of n A) (permf P)).
+Definition run_reconstruct_colwise (n : nat) (A : list Z) (P : list nat) : list Z := list_of n n (reconstruct_colwise n (mat_of n A) (permf P)).
